@@ -657,12 +657,15 @@ func (t *Trans) enterLoop(fr *Frame, lr *loopRec, reach string, pre State, phiPr
 	w := t.loopWrites(fr, lr)
 	if _, all := w["*"]; all {
 		delete(w, "*")
-		t.note("%s: loop %d may write anything: all state havocked at the loop head", fr.path, lr.ordinal)
+		t.note("%s: loop %d may write any heap location: heap havocked at the loop head", fr.path, lr.ordinal)
 		for _, c := range t.env.compOrd {
-			if !strings.HasPrefix(c, "IT_") {
+			if _, isGhost := t.P.ghostComps[c]; !strings.HasPrefix(c, "IT_") && !isGhost {
 				w[c] = t.env.comps[c]
 			}
 		}
+	}
+	if _, gh := w["ghost*"]; gh {
+		delete(w, "ghost*")
 		for g, srt := range t.P.ghostComps {
 			w[g] = srt
 		}
@@ -781,7 +784,7 @@ func (t *Trans) autoFrameInvariants(fr *Frame, lr *loopRec) []autoInv {
 	for _, c := range ws {
 		c := c
 		sortc := w[c]
-		if c == "*" || c == "alloc" || !strings.HasPrefix(sortc, "(Array Ref ") {
+		if c == "*" || c == "ghost*" || c == "alloc" || !strings.HasPrefix(sortc, "(Array Ref ") {
 			continue
 		}
 		if t.P.ghostComps[c] != "" {
@@ -818,10 +821,17 @@ func (t *Trans) frameFormula(fr *Frame, comp, now, before, alloc0 string, sc *Sp
 // modifiesFor returns, for component comp, the list of conditions (over variable rv) describing
 // locations the contract allows to change, and whether the whole component may change.
 func (t *Trans) modifiesFor(c *Contract, comp string, sc *SpecCtx, rv string) (conds []string, whole bool) {
+	_, compIsGhost := t.P.ghostComps[comp]
 	for _, it := range c.Modifies {
 		if it.IsAtom() {
-			if it.Atom == comp || it.Atom == "everything" {
+			if it.Atom == comp || it.Atom == "everything" || (it.Atom == "ghost*" && compIsGhost) || (it.Atom == "heap*" && !compIsGhost) {
 				return nil, true
+			}
+			continue
+		}
+		if it.Head() == "@" {
+			if lc, idx, ok := sc.locationOf(it); ok && lc == comp {
+				conds = append(conds, fmt.Sprintf("(= %s %s)", rv, idx))
 			}
 			continue
 		}
